@@ -670,6 +670,13 @@ fn probe_transcript(sess: &Session, first_line: usize) -> Vec<String> {
     sess.log[s..]
         .iter()
         .filter_map(|e| match e {
+            Event::Out { stream: 0, line, .. } if line.starts_with("info time") => {
+                // elapsed time and nodes-per-second depend on the clock, which the property does
+                // not speak about: keep depth and node count only
+                let t: Vec<&str> = line.split_ascii_whitespace().collect();
+                let field = |k: &str| t.iter().position(|x| *x == k).and_then(|i| t.get(i + 1)).copied().unwrap_or("?");
+                Some(format!("info depth {} nodes {}", field("depth"), field("nodes")))
+            }
             Event::Out { stream: 0, line, .. } if line.starts_with("info") || line.starts_with("bestmove") => Some(line.clone()),
             _ => None,
         })
